@@ -336,6 +336,78 @@ func C17(c *core.Ctx) error {
 			cases = append(cases, cs{})
 		}
 	}
+	// ---- the header settings change between two runs over the same tree (force-file-write true): the second run's
+	// file carries the second run's boilerplate and constraint, whatever the first run left there
+	for _, tmpl := range []string{"testify", "matryer"} {
+		for _, fmtr := range []string{"goimports", "noop"} {
+			type hs struct{ tags, boiler string }
+			seq := []hs{{"integration", "// First licence\n"}, {"e2e && !integration", "// Second licence\n// two lines\n"}, {"", ""}, {"unit", "// Third licence\n"}}
+			id := fmt.Sprintf("header settings changed between runs over one tree, template=%s formatter=%s", tmpl, fmtr)
+			files := map[string]string{"p/p.go": "package p\n\ntype I interface{ M(a int) (string, error) }\n"}
+			m, err := c.NewModule("c17-rerun-"+tmpl+fmtr, files)
+			if err != nil {
+				return err
+			}
+			ok := true
+			for step, h := range seq {
+				td := core.M{}
+				if h.tags != "" {
+					td["mock-build-tags"] = h.tags
+				}
+				if h.boiler != "" {
+					core.WriteTree(m.Dir, map[string]string{"boiler.txt": h.boiler})
+					td["boilerplate-file"] = "boiler.txt"
+				}
+				cfg := core.M{"template": tmpl, "formatter": fmtr, "log-level": "error", "force-file-write": true, "dir": "{{.InterfaceDir}}", "pkgname": "p", "filename": "mocks_gen.go", "template-data": td,
+					"packages": core.M{core.ModPath + "/p": core.M{"interfaces": core.M{"I": core.M{}}}}}
+				core.WriteTree(m.Dir, map[string]string{".mockery.yml": core.YAML(cfg)})
+				r := c.RunMockery(m.Dir, nil)
+				c.Ev.Add("transitions", 1)
+				txt, _ := m.Read("p/mocks_gen.go")
+				header, _, _ := strings.Cut(txt, "\npackage ")
+				replay := map[string]any{"case": id, "step": step, "settings_so_far": seq[:step+1], "header": header, "exit": r.Exit}
+				if r.Exit != 0 {
+					c.Report("rerun-generate:"+id, fmt.Sprintf("%s: run %d failed (exit %d): %s", id, step+1, r.Exit, firstN(r.Stderr, 300)), replay)
+					ok = false
+					break
+				}
+				var gotTags []string
+				for _, l := range strings.Split(header, "\n") {
+					if strings.HasPrefix(l, "//go:build ") {
+						gotTags = append(gotTags, strings.TrimPrefix(l, "//go:build "))
+					}
+				}
+				wantTags := ""
+				if h.tags != "" {
+					wantTags = h.tags
+				}
+				if strings.Join(gotTags, "|") != wantTags {
+					c.Report("rerun-constraint:"+id, fmt.Sprintf("%s: after run %d the file carries the constraint(s) %q, the configuration of that run says %q", id, step+1, gotTags, h.tags), replay)
+					ok = false
+					break
+				}
+				for k, other := range seq {
+					if other.boiler == "" {
+						continue
+					}
+					has := strings.Contains(header, strings.TrimRight(other.boiler, "\n")+"\n")
+					if has != (other.boiler == h.boiler) {
+						c.Report("rerun-boilerplate:"+id, fmt.Sprintf("%s: after run %d the boilerplate of run %d is present=%v", id, step+1, k+1, has), replay)
+						ok = false
+					}
+				}
+				if !ok {
+					break
+				}
+			}
+			c.Ev.Distinct("states", id)
+			m.Remove()
+			if ok {
+				done++
+			}
+			cases = append(cases, cs{})
+		}
+	}
 	c.Ev.Set("evaluations", done+listed)
 	c.Ev.Set("traces_validated_against_impl", done)
 	c.Ev.Set("go_list_truth_assignments", listed)
@@ -343,7 +415,7 @@ func C17(c *core.Ctx) error {
 	c.Ev.Set("distinct_outcomes", len(outcomes))
 	c.Ev.Set("cases", len(cases))
 	c.Ev.Set("exhaustive", done == len(cases))
-	c.Ev.Set("rule", "full product build-constraint expression x boilerplate text x template x formatter, plus the two settings written at every pair of levels {top, package} with an unrelated template-data key at each level, each generated by the real binary; three source packages whose mocks share one output package name with their own package-level header settings; (1) a generated-code marker line precedes every non-comment text and the package clause, (2) the boilerplate bytes appear verbatim before the package clause, (3) for every truth assignment of the expression's tags (GOOS switched for linux) `go list -tags` includes the file iff go/build/constraint evaluates the expression to true; distinct_nontrivial = cases with a constraint or a boilerplate")
+	c.Ev.Set("rule", "full product build-constraint expression x boilerplate text x template x formatter, plus the two settings written at every pair of levels {top, package} with an unrelated template-data key at each level, each generated by the real binary; three source packages whose mocks share one output package name with their own package-level header settings; four consecutive runs over one tree with changing header settings; (1) a generated-code marker line precedes every non-comment text and the package clause, (2) the boilerplate bytes appear verbatim before the package clause, (3) for every truth assignment of the expression's tags (GOOS switched for linux) `go list -tags` includes the file iff go/build/constraint evaluates the expression to true; distinct_nontrivial = cases with a constraint or a boilerplate")
 	c.Ev.Assume("release tags (go1.x) are always true; cgo disabled")
 	c.Ev.Assume("boilerplate-file and mock-build-tags describe the file header, which is rendered from the package's resolved template-data; writing them at interface level is not meaningful and not exercised")
 	return nil
